@@ -138,7 +138,7 @@ func c19stress(c *run.Ctx) {
 	rounds := 2
 	opsPer := 150
 	if !c.Quick() {
-		rounds, opsPer = 12, 800
+		rounds, opsPer = 8, 500
 	}
 	keys := world.GetKeys()
 	for round := 0; round < rounds; round++ {
@@ -796,7 +796,7 @@ func c19sched(c *run.Ctx) {
 	ops := schedOps()
 	limit := 40
 	if !c.Quick() {
-		limit = 3000
+		limit = 1200
 	}
 	type combo struct{ idx []int }
 	var combos []combo
